@@ -5,6 +5,9 @@ HERE = os.path.dirname(os.path.dirname(os.path.abspath(__file__)))
 
 E1_NOTE = ("Trusted: fjall/lsm-tree, cacache, tokio, scru128 (explored through, not modelled); tmpfs scratch; "
            "bounded alphabet and depth as reported in the evidence; in-process reopen (real restarts are C17's).")
+E2_NOTE = ("Trusted: tokio channels, fjall, scru128 inside one step; scheduling points are the verif hook points of DESIGN.md §2.1 "
+           "(every channel operation of Store::read, the append lock / id / commit / broadcast steps); preemption bound, scenarios and "
+           "heartbeat tick horizon as reported in the evidence.")
 CHECKS = {
  "C01": dict(engine="E1-seq", cat="model_checking", ref="DESIGN.md §5 C01, §4 E1",
    technique="explicit-state BFS over operation histories, each transition replayed on the real store against a reference model",
@@ -26,6 +29,19 @@ CHECKS = {
    technique="explicit-state BFS with the clock and the GC worker as explicit operations, upper-bound (must-be-absent) oracle",
    text="Same search as C08 with the upper-bound oracle: ephemeral frames reach exactly the live subscriber and are never stored; no read returns an elapsed time:N frame; after a covering read and a drain it is physically gone; after a drain a topic whose newest frame is head:N holds at most N frames forming a suffix.",
    note=E1_NOTE),
+
+ "C02": dict(engine="E2-sched", cat="model_checking", ref="DESIGN.md §5 C02, §4 E2",
+   technique="stateless preemption-bounded DFS over all interleavings of the real writer threads under a controlled scheduler, with a state observer at every decision point",
+   text="Every interleaving (within the preemption bound) of 2-3 concurrent Store::append calls at lock / id / commit / broadcast granularity, with and without followers; at every decision point an observer re-reads every scope and a last-id poller advances: the visible stream may only grow at its end, followers receive ids in increasing order, the poller reconstructs the final stream exactly.",
+   note=E2_NOTE),
+ "C03": dict(engine="E2-sched", cat="model_checking", ref="DESIGN.md §5 C03",
+   technique="stateless preemption-bounded DFS over the real subscribe/scan/hand-off/live steps of Store::read interleaved with appenders",
+   text="For pre-histories of 0-3 (and 101) frames, start positions beginning / last-id / tail, all-contexts and scoped readers: every interleaving (within the bound) of the writers' append steps with the reader's subscribe, every historical send, threshold, done hand-off, live receive/send and consumer receive on the real code; required / optional / forbidden deliveries are derived from the statement and the explorer's own event order.",
+   note=E2_NOTE),
+ "C11": dict(engine="E2-sched", cat="model_checking", ref="DESIGN.md §5 C11",
+   technique="stateless preemption-bounded DFS over Store::read with limit / tail / heartbeat / small channel capacities under a controlled scheduler",
+   text="limit n in {1,2} against histories n-1, n, n+1, follow off / on / heartbeat, tail, last-id+context, a second plain follower, and lagging consumers (broadcast capacity 2, delivery capacity 1): all interleavings within the bound; delivered frames must be exactly the first n, the stream must then end (probed by one more matching append), synthetic frames go only to their stream, nothing continues past a skipped frame.",
+   note=E2_NOTE),
 }
 NOT_YET = {}
 ALL = ["C%02d" % i for i in range(1, 21)]
@@ -52,7 +68,7 @@ def main():
         commits = subprocess.check_output(["git", "-C", "/repo", "log", "--format=%h %s", "084b940..HEAD"], text=True).strip().splitlines()
     except Exception:
         commits = []
-    hooks = [c.split()[0] for c in commits if c.split(" ", 1)[1].startswith("verif hooks")]
+    hooks = [c.split()[0] for c in commits if c.split(" ", 1)[1].startswith("verif hooks")][::-1]
     m = {
         "version": 1,
         "setup_cmd": "cd /verif/engine && CARGO_NET_OFFLINE=true CARGO_TARGET_DIR=/verif/target cargo build --offline",
@@ -64,6 +80,8 @@ def main():
             "add_only": True,
         },
         "engines": [
+            {"name": "E2-sched", "path": "engine/src/sched.rs, engine/src/e2.rs", "serves_properties": [p for p in ALL if CHECKS.get(p, {}).get("engine", "").startswith("E2")],
+             "kind_free_text": "hand-rolled controlled scheduler over the verif hook points; stateless DFS with iterative preemption bounding over real threads and tokio tasks"},
             {"name": "E1-seq", "path": "engine/src/seq.rs, engine/src/model.rs", "serves_properties": [p for p in ALL if CHECKS.get(p, {}).get("engine", "").startswith("E1")],
              "kind_free_text": "explicit-state breadth-first search over operation histories; every transition executed on a fresh real store; reference model in Rust"},
         ],
